@@ -134,12 +134,37 @@ class SplineRoles(Family):
                 and same(ev[1]["at"], qs)
         ctx.claim(method + ":arguments-in-the-right-roles", ok)
         # kwargs are forwarded
+        if method == "cubic":
+            process.interpolate(arr(ctx, xs), arr(ctx, ys), arr(ctx, qs), method="cubic", bc_type="natural")
+            c = inst.calls("CubicSpline")
+            ctx.claim("cubic:kwargs-forwarded", c[-1]["kwargs"] == {"bc_type": "natural"} and not c[-1]["args"])
         if method == "spline":
             s = ctx.real("s")
             ctx.assume(ctx.le(0, s))
             process.interpolate(arr(ctx, xs), arr(ctx, ys), arr(ctx, qs), method="spline", s=s)
             c = inst.calls("splrep")
             ctx.claim("spline:kwargs-forwarded", ctx.same(c[-1]["s"], s) is True)
+
+
+class WeaverGridOtherRange(Family):
+    name = "weaver-interpolate-grid-uses-working-range"
+    doc = "interpolate(n) spans the WORKING series' range also when the reference spans another one"
+
+    def configs(self, tier):
+        return [{"L": 3, "n": n, "method": m} for n in (2, 3, 4) for m in ("linear", "constant")]
+
+    def run(self, ctx, inst, L, n, method):
+        from checks.weaverfam import make_state
+        st = make_state(ctx, L, "reshaped-other-range")
+        w = st.w
+        x0, x1 = w.x[0], w.x[-1]
+        rx = list(w.reference_x)
+        w.interpolate(n, method=method)
+        gx = w.get()[0]
+        ctx.claim("interpolate(n):exactly-n-points", len(gx) == n)
+        ctx.claim("interpolate(n):same-end-points", ctx.And(ctx.same(gx[0], x0), ctx.same(gx[n - 1], x1)))
+        ctx.claim("interpolate(n):reference-untouched", len(w.reference_x) == len(rx) and all(
+            (ctx.same(a, b) is True) or (not ctx.symbolic and ctx.same(a, b)) for a, b in zip(list(w.reference_x), rx)))
 
 
 class WeaverGrid(Family):
@@ -211,4 +236,4 @@ if __name__ == "__main__":
     ap = argparse.ArgumentParser()
     ap.add_argument("--tier", default="quick")
     a = ap.parse_args()
-    sys.exit(run_check("C13", "interpolation", [Constant(), Linear(), SplineRoles(), WeaverGrid()], a.tier, META))
+    sys.exit(run_check("C13", "interpolation", [Constant(), Linear(), SplineRoles(), WeaverGrid(), WeaverGridOtherRange()], a.tier, META))
